@@ -342,6 +342,18 @@ pub fn run_case(o: &mut Obs, spec: &Spec, ops: &[ROp], path: usize, fin: Final, 
                         o.inc("refused_take_checks");
                     }
                 }
+                // a refused request that would have *delivered* bytes (copy_to_slice, copy_to_bytes, get_X) delivered
+                // none, so no inner buffer may have moved: the tree must still denote the same sequence (C12: inner
+                // buffers advance by exactly the bytes that went through). `advance` is different: it discards, and
+                // Chain::advance legitimately discards all of `a` before `b` refuses the rest.
+                if matches!(op, ROp::CopySlice(_) | ROp::CopyBytes(_) | ROp::GetU8 | ROp::GetU32Le) && !has_endless(spec) {
+                    o.inc("refused_delivery_checks");
+                    let rem = crate::util::catch(|| root.remaining());
+                    if rem != Ok(rest.len()) {
+                        report(o, spec, "refused-request-consumed", case, &format!("the refused {op:?} delivered nothing but left remaining()={rem:?} where {} bytes had been left; ops={ops:?}", rest.len()), true);
+                        return crate::rng::fnv_u64(dg, 9);
+                    }
+                }
                 return crate::rng::fnv_u64(dg, 2);
             }
             Step::Bad(sig, d) => {
